@@ -105,6 +105,8 @@ structure OState where
   s : Bytes := []
   isn : Nat := 0
   h : List Seg := []
+  /-- `frontier h s.length`, followed incrementally (`frontier_cons_advance` in TinsModel/Tcp/LemmasRefine.lean) -/
+  k : Nat := 0
   unspecified : Bool := true
 
 def kv (ws : List String) (key : String) : Option String :=
@@ -179,22 +181,24 @@ def specStep (st : OState) (line : String) : OState × String :=
   match line.splitOn " ||| " with
   | [op, out] =>
     let kind := opKind (words op)
-    let kOld := frontier st.h st.s.length
+    let kOld := st.k
     let st' : OState := match kind with
-      | .start isn s => { s := s, isn := isn, h := [], unspecified := false }
-      | .arrival o len _ _ => { st with h := ⟨o, len⟩ :: st.h }
+      | .start isn s => { s := s, isn := isn, h := [], k := 0, unspecified := false }
+      | .arrival o len _ _ =>
+        let h' := ⟨o, len⟩ :: st.h
+        { st with h := h', k := advanceFrom h' st.s.length (st.s.length + 1) st.k }
       | .nothing | .other => st
       | .leave => { st with unspecified := true }
     if st'.unspecified then (st', "unspecified") else
     match parseSeen out with
     | none => (st', "violates unparsable-output")
     | some seen =>
-      let k := frontier st'.h st'.s.length
+      let k := st'.k
       let pref := st'.s.take k
       if seen.plen != k || seen.ph != (fnv pref).toNat then (st', s!"violates delivered-prefix k={k} plen={seen.plen}")
       else
         let total := seen.total.getD (seen.buf.map (fun c => c.2.length)).sum   -- the legacy stream has no counter
-        if !specOK st'.s st'.isn st'.h ⟨seen.seq, total, pref, seen.buf⟩ then (st', s!"violates buffered-state k={k}")
+        if !specOKat st'.s st'.isn k ⟨seen.seq, total, pref, seen.buf⟩ then (st', s!"violates buffered-state k={k}")
         else
           -- callbacks: the data callback / `true` result exactly when the delivered prefix grew; the
           -- out-of-order callback exactly when the segment lies entirely below the delivery point or starts above it
